@@ -54,4 +54,19 @@ theorem Good.stream_truncated {α} {c : Codec α} {v} (h : c.Good v) (xs : List 
         simp only [putMany, List.length_append] at hk; omega
       simp only [ih (fun y hy => hx y (by simp [hy])) _ hk']
 
+/-- reading only the first `m` values leaves the stream positioned exactly at the start of value `m` -/
+theorem Good.stream_partial {α} {c : Codec α} {v} (h : c.Good v) (xs : List α) (hx : ∀ x ∈ xs, v x)
+    (m : Nat) (hm : m ≤ xs.length) (rest : List Nat) :
+    getMany c m (putMany c xs ++ rest) = some (xs.take m, putMany c (xs.drop m) ++ rest) := by
+  induction xs generalizing m with
+  | nil => have : m = 0 := by simpa using hm
+           subst this; rfl
+  | cons x xs ih =>
+    cases m with
+    | zero => rfl
+    | succ m =>
+      have hx0 : v x := hx x (by simp)
+      have ih' := ih (fun y hy => hx y (by simp [hy])) m (by simpa using hm)
+      simp only [putMany, getMany, List.append_assoc, h.rt x _ hx0, ih', List.take_succ_cons, List.drop_succ_cons]
+
 end Sucds.Codec
